@@ -367,7 +367,7 @@ func randomCase(c *ev.Ctx, r *rand.Rand, run func(caseDesc, bool, func() *verdic
 		run(d, true, func() *verdict { return checkPad(in, n, ansi.Pad(in, n)) })
 	case 3:
 		d.Fn = "Indent"
-		prefix := []string{"  ", "▌", "┃ ", "", " ", "    ", "→ "}[r.Intn(7)]
+		prefix := []string{"  ", "▌", "┃ ", "", " ", "    ", "→ ", "$1 ", "US$5 ", "a$b ", "$$ ", "${x}", "\\1 ", "%s ", "& "}[r.Intn(15)]
 		first := r.Intn(2) == 0
 		d.Extra = fmt.Sprintf("prefix=%q first=%v", prefix, first)
 		run(d, true, func() *verdict { return checkIndent(in, prefix, first, ansi.Indent(in, prefix, first)) })
